@@ -450,7 +450,8 @@ def check_C18(tier, seed):
         W += oomcheck.api_workloads(res, c.split(".")[0])
         schemas["api"] = sl("S", res.schemas[1])
     lim = 12 if tier == "quick" else 60
-    for c, invs in (("C07_titles.cfg", INV_PARSE[2:]), ("C05_parse_quick.cfg", INV_PARSE), ("callbacks_quick.cfg", INV_CB)):
+    for c, invs in (("C07_titles.cfg", INV_PARSE[2:]), ("C05_parse_quick.cfg", INV_PARSE), ("callbacks_quick.cfg", INV_CB),
+                    ("C01_kvnest.cfg", INV_PARSE)):      # (free-form sections: options created while parsing)
         res = tlc_parse(v, c, invs)
         W += oomcheck.parse_workloads(res, c.split(".")[0], lim)
         for sid, sch in res.schemas.items():
